@@ -755,6 +755,11 @@ class BaseEvent(BaseModel, Generic[T_EventResultType]):
                     # print('CANCELLING CHILD HANDLER', result, 'due to', error)
                     result.update(error=error)
             child_event.event_cancel_pending_child_processing(error)
+            # The child's interrupted processing will never reach its own completion check:
+            # now that all of its started/pending handler results are terminal, signal completion
+            # so that anything awaiting the child is released (a child that was never started is left alone)
+            if child_event.event_results:
+                child_event.event_mark_complete_if_all_handlers_completed()
 
     def event_log_safe_summary(self) -> dict[str, Any]:
         """only event metadata without contents, avoid potentially sensitive event contents in logs"""
